@@ -535,9 +535,105 @@ class RealThreads(Suite):
         return repr(case)
 
 
+class OwnCacheClasses(Suite):
+    """file caches of the user's own (FileCache with its own save_value / load_value): a plain-text cache, whose entry
+    for the value '' is a file of zero bytes, and a cache whose older entries cannot be read any more (load_value raises
+    something else than CacheException).  Callers one after the other, and real threads that overlap on an unreadable
+    entry: a call that starts after another has returned does not recompute, no call fails, the entry is complete at the
+    end.  Runtime check only (the cooperative scheduler and the model speak of JsonCache)."""
+    name = 'own_cache_classes'
+    model = ''
+
+    def gen(self, rng, tier):
+        return [dict(kind='text', value=v) for v in ('', 'x', 'two\nlines', ' ')] + \
+               [dict(kind='versioned', n=n, pause=p) for n in (2, 3) for p in (0.05, 0.15)]
+
+    def run_impl(self, case):
+        import time
+        from taskchain.cache import FileCache, NO_VALUE
+        d = tempfile.mkdtemp(prefix='tcverif-own-')
+        try:
+            if case['kind'] == 'text':
+                class TextCache(FileCache):
+                    extension = 'txt'
+
+                    def save_value(self, filepath, key, value):
+                        filepath.write_text(value)
+
+                    def load_value(self, filepath, key):
+                        return filepath.read_text()
+                calls = []
+                out = []
+                for who in range(3):
+                    c = TextCache(Path(d) / 'c')       # a new cache object per caller, as another process would have
+                    got = c.get('k')
+                    out.append(['get', None if got is NO_VALUE else got])
+                    out.append(['goc', c.get_or_compute('k', lambda: calls.append(who) or case['value'])])
+                return dict(out=out, calls=calls)
+
+            class Versioned(FileCache):         # entries start with a format number; an entry of another format is unreadable
+                extension = 'v'
+                FORMAT = '2'
+
+                def save_value(self, filepath, key, value):
+                    with filepath.open('w') as f:
+                        f.write(self.FORMAT + '\n')
+                        time.sleep(case['pause'])            # a writer that takes its time
+                        f.write(json.dumps(value))
+
+                def load_value(self, filepath, key):
+                    fmt, _, body = filepath.read_text().partition('\n')
+                    if fmt != self.FORMAT:
+                        raise ValueError(f'entry of format {fmt}')
+                    return json.loads(body)
+            c = Versioned(Path(d) / 'c')
+            c.filepath('k').write_text('1\n{"old": true}')      # left by an older version of the program
+            results, errors, computed = {}, {}, []
+
+            def caller(i):
+                try:
+                    results[i] = c.get_or_compute('k', lambda: computed.append(i) or {'by': i})
+                except Exception as e:
+                    errors[i] = f'{type(e).__name__}: {e}'[:120]
+            threads = [threading.Thread(target=caller, args=(i,)) for i in range(case['n'])]
+            for i, t in enumerate(threads):
+                t.start()
+                time.sleep(case['pause'] / 3)
+            for t in threads:
+                t.join(20)
+            final = c.get('k')
+            return dict(results=results, errors=errors, computed=computed, final=None if final is NO_VALUE else final)
+        finally:
+            shutil.rmtree(d, ignore_errors=True)
+
+    def oracle(self, case, obs):
+        if 'unexpected_exception' in obs:
+            return f'unexpected exception {obs["unexpected_exception"]}: {obs["text"]}'
+        if case['kind'] == 'text':
+            v = case['value']
+            want = [['get', None], ['goc', v]] + [['get', v], ['goc', v]] * 2
+            if obs['out'] != want or obs['calls'] != [0]:
+                return (f'{case}: callers one after the other saw {obs["out"]} and computed {obs["calls"]} times; the first call stores the '
+                        f'value, every later call finds it: {want}, one computation')
+            return None
+        if obs['errors']:
+            return f'{case}: a call failed while others were writing the entry: {obs["errors"]}'
+        if any(not (isinstance(r, dict) and r.get('by') in obs['computed']) for r in obs['results'].values()) or len(obs['results']) != case['n']:
+            return f'{case}: results {obs["results"]}, computations {obs["computed"]}'
+        if not (isinstance(obs['final'], dict) and obs['final'].get('by') in obs['computed']):
+            return f'{case}: at quiescence the entry is {obs["final"]}'
+        return None
+
+    def nontrivial(self, case, obs):
+        return True
+
+    def key(self, case):
+        return repr(case)
+
+
 class C15(Prop):
     pid = 'C15'
-    suites = [Schedules(), RealThreads()]
+    suites = [Schedules(), RealThreads(), OwnCacheClasses()]
     known_classes = {'unlocked-load-window': window_class}
     trusted_base = ['filelock is replaced by a cooperative lock in the correspondence: mutual exclusion of the real '
                     'FileLock is trusted; processes, flock semantics and chunked reads of large files are not modelled (partial)',
